@@ -321,6 +321,7 @@ func RunCheck(o *RunOpts, prop string) int {
 	sort.Slice(keys, func(i, j int) bool { return m.Viols[keys[i]].Order < m.Viols[keys[j]].Order })
 	exit := 0
 	nviol := 0
+	var unconfirmed []string
 	var knownHits []string
 	os.MkdirAll(filepath.Join(o.VerifDir, "replays"), 0o755)
 	for _, k := range keys {
@@ -340,15 +341,32 @@ func RunCheck(o *RunOpts, prop string) int {
 		}
 		// confirm: the recorded case must fail the same way five times in a fresh process
 		ok, detail := confirm(o, path, v.Key)
+		if !ok && (strings.HasSuffix(v.Key, "|hang") || strings.HasSuffix(v.Key, "|heap")) {
+			// the only wall-clock/resource oracle of the framework: a watchdog kill that does not reproduce in a
+			// fresh single-case run is not evidence of anything; the case was skipped in the re-run, so the
+			// exploration is recorded as capped instead of exhaustive
+			m.Capped = append(m.Capped, fmt.Sprintf("transient watchdog kill not reproduced (%s, %s): case skipped", v.Key, detail))
+			continue
+		}
 		if !ok {
-			fmt.Fprintf(os.Stderr, "FRAMEWORK ERROR property=%s: violation %s did not reproduce from %s: %s\n", prop, v.Key, path, detail)
-			return 2
+			// not reproducible from a fresh process: either the harness is at fault or the failure depends on what
+			// ran before it in the worker (hidden state carried between calls). It is never printed as a VIOLATION;
+			// it only matters if nothing else confirms (see below).
+			unconfirmed = append(unconfirmed, fmt.Sprintf("%s (%s): %s", v.Key, path, detail))
+			continue
 		}
 		nviol++
 		exit = 1
 		fmt.Printf("VIOLATION property=%s replay=%s\n  key=%s cases=%d\n  %s\n", prop, path, v.Key, v.Count, v.What)
 	}
 
+	for _, u := range unconfirmed {
+		fmt.Printf("UNCONFIRMED-OBSERVATION property=%s %s\n", prop, u)
+	}
+	if nviol == 0 && len(unconfirmed) > 0 {
+		fmt.Fprintf(os.Stderr, "FRAMEWORK ERROR property=%s: %d observation(s) did not reproduce from their replay files and nothing else failed; no verdict\n", prop, len(unconfirmed))
+		return 2
+	}
 	// evidence
 	cov := map[string]any{}
 	for _, k := range []string{"evaluations", "distinct_nontrivial", "states", "transitions", "traces_validated_against_impl", "programs", "disagreements_checked"} {
@@ -450,30 +468,39 @@ func sanitize(s string) string {
 	return out
 }
 
-// confirm replays the file in a fresh process; the process itself replays five times.
+// confirm replays the file in five fresh processes (one replay each, so that a case which corrupts process-wide
+// state cannot influence its own confirmation); all five must fail with the expected key.
 func confirm(o *RunOpts, path, key string) (bool, string) {
-	cmd := exec.Command(o.Exe, "replay", path, "--times", "5", "--expect", key)
-	var so, se bytes.Buffer
-	cmd.Stdout, cmd.Stderr = &so, &se
-	cmd.Env = append(os.Environ(), "GOMAXPROCS=2", "GOTRACEBACK=single")
-	err := cmd.Run()
-	code := 0
-	if ee, ok := err.(*exec.ExitError); ok {
-		code = ee.ExitCode()
-	} else if err != nil {
-		return false, err.Error()
-	}
 	parts := strings.Split(key, "|")
 	why := parts[len(parts)-1]
-	switch why {
-	case "hang":
-		return code == ExitHang, fmt.Sprintf("exit %d", code)
-	case "heap":
-		return code == ExitHeap || strings.Contains(se.String(), "out of memory"), fmt.Sprintf("exit %d", code)
-	case "fatal", "stack-overflow":
-		return code != 0 && code != 1, fmt.Sprintf("exit %d", code)
+	detail := ""
+	for i := 0; i < 5; i++ {
+		cmd := exec.Command(o.Exe, "replay", path, "--times", "1", "--expect", key)
+		var so, se bytes.Buffer
+		cmd.Stdout, cmd.Stderr = &so, &se
+		cmd.Env = append(os.Environ(), "GOMAXPROCS=2", "GOTRACEBACK=single")
+		err := cmd.Run()
+		code := 0
+		if ee, ok := err.(*exec.ExitError); ok {
+			code = ee.ExitCode()
+		} else if err != nil {
+			return false, err.Error()
+		}
+		ok := code == 1
+		switch why {
+		case "hang":
+			ok = code == ExitHang
+		case "heap":
+			ok = code == ExitHeap || strings.Contains(se.String(), "out of memory")
+		case "fatal", "stack-overflow":
+			ok = code != 0 && code != 1
+		}
+		if !ok {
+			detail = fmt.Sprintf("replay %d of 5: exit %d: %s %s", i+1, code, tail(so.String(), 300), tail(se.String(), 300))
+			return false, detail
+		}
 	}
-	return code == 1, fmt.Sprintf("exit %d: %s %s", code, tail(so.String(), 500), tail(se.String(), 500))
+	return true, ""
 }
 
 // ReplayMain implements `vcheck replay <file> [--times n] [--expect key]`.
